@@ -12,7 +12,7 @@ python3 translator/extract_convforms.py /repo lean/Decaf/Generated/ConvForms.lea
 ( cd lean && lake build Decaf.Props.C01 Decaf.Props.C02 Decaf.Props.C03 Decaf.Props.C04 Decaf.Props.C05 Decaf.Props.C06 Decaf.Props.C07 Decaf.Props.C08 \
     Decaf.Props.C09 Decaf.Props.C10 Decaf.Props.C11 Decaf.Props.C12 Decaf.Props.C13 Decaf.Props.C14 Decaf.Props.C15 Decaf.Props.C16 Decaf.Props.C17 Decaf.Spec.Primes \
     Decaf.Props.Translated.C01 Decaf.Props.Translated.C02 Decaf.Props.Translated.C03 Decaf.Props.Translated.C04 Decaf.Props.Translated.C05 Decaf.Props.Translated.C06 \
-    Decaf.Props.Translated.C07 Decaf.Props.Translated.C08 Decaf.Props.Translated.C09 Decaf.Props.Translated.C12 Decaf.Props.Translated.C13 Decaf.Props.Translated.C14 ) || true
+    Decaf.Props.Translated.C07 Decaf.Props.Translated.C08 Decaf.Props.Translated.C09 Decaf.Props.Translated.C10 Decaf.Props.Translated.C11 Decaf.Props.Translated.C12 Decaf.Props.Translated.C13 Decaf.Props.Translated.C14 ) || true
 mkdir -p build
 [ -f harness/Cargo.lock ] || cp /repo/Cargo.lock harness/Cargo.lock
 ( cd harness && cargo build --offline --features ark --target-dir ../build/ark ) &
